@@ -33,6 +33,9 @@ func (x *Exec) callWithArgs(fr *frame, cc *ssa.CallCommon, fnv sval, args []sval
 	if b, ok := cc.Value.(*ssa.Builtin); ok {
 		return x.execBuiltin(fr, b, cc, args, st, reach, pos)
 	}
+	if fr.top && x.ct != nil && len(x.ct.Callsites) > 0 && !x.errflow {
+		x.checkCallsites(fr, cc, args, st, reach, pos, resultOf)
+	}
 	var key string
 	var callee *ssa.Function
 	var allArgs []sval
@@ -120,7 +123,16 @@ func (x *Exec) callWithArgs(fr *frame, cc *ssa.CallCommon, fnv sval, args []sval
 		why = "call not inlined (depth/recursion), no contract: " + key
 	}
 	x.note(why)
-	if callee != nil && len(callee.Blocks) > 0 {
+	if callee != nil && !inRepoFn(callee) {
+		// external function without contract: writes only memory reachable from its arguments
+		ws := &WriteSet{Comps: map[string]bool{}}
+		x.eng.externArgWrites(ws, cc)
+		if !ws.Top {
+			nst := x.havocForWrites(st, ws, why)
+			return x.freshResults(sig, nst, reach), nst
+		}
+	}
+	if callee != nil && len(callee.Blocks) > 0 && inRepoFn(callee) {
 		// the callee's transitive write set (computed from its code) bounds its effect
 		ws := x.eng.writeSet(callee)
 		if !ws.Top {
@@ -1532,4 +1544,125 @@ func (e *Engine) resolveFuncValue(v ssa.Value) *ssa.Function {
 		}
 	}
 	return found
+}
+
+
+// checkCallsites: `callsite <target> [label] expr` clauses of the function
+// under verification — expr (over the function's parameters, the named locals
+// visible at the call and arg0, arg1, …) must hold at every call of <target>.
+func (x *Exec) checkCallsites(fr *frame, cc *ssa.CallCommon, args []sval, st *State, reach string, pos token.Pos, at ssa.Value) {
+	name := callsiteName(cc)
+	if name == "" {
+		return
+	}
+	var blk *ssa.BasicBlock
+	if ins, ok := at.(ssa.Instruction); ok {
+		blk = ins.Block()
+	}
+	for _, c := range x.ct.Callsites {
+		// target[@k]: k = ordinal (from 1, in source order) of the call among the calls of the function matching target
+		target, want := c.Target, 0
+		if i := strings.LastIndex(target, "@"); i > 0 {
+			fmt.Sscanf(target[i+1:], "%d", &want)
+			target = target[:i]
+		}
+		if !callsiteMatch(target, name) {
+			continue
+		}
+		if want != 0 {
+			var sites []token.Pos
+			for _, b := range fr.fn.Blocks {
+				for _, ins := range b.Instrs {
+					if ci, ok := ins.(ssa.CallInstruction); ok && callsiteMatch(target, callsiteName(ci.Common())) {
+						sites = append(sites, ins.Pos())
+					}
+				}
+			}
+			sort.Slice(sites, func(i, j int) bool { return sites[i] < sites[j] })
+			ord := 0
+			for i, p := range sites {
+				if p == pos {
+					ord = i + 1
+				}
+			}
+			if ord != want {
+				continue
+			}
+		}
+		x.nameCount[fmt.Sprintf("callsite-hit:%d", c.Line)]++
+		var st0 *State
+		if x.topEnv != nil {
+			st0 = x.topEnv.st
+		}
+		env := x.baseEnv(fr, st, st0)
+		if blk != nil {
+			for _, b := range fr.fn.Blocks {
+				if !b.Dominates(blk) {
+					continue
+				}
+				for _, ins := range b.Instrs {
+					if b == blk && ins == at.(ssa.Instruction) {
+						break
+					}
+					if d, ok := ins.(*ssa.DebugRef); ok && !d.IsAddr {
+						if obj := d.Object(); obj != nil {
+							if sv, ok := fr.vals[d.X]; ok {
+								env.vars[obj.Name()] = TVal{T: sv.t, Sort: x.so.sortOf(d.X.Type()), Ty: d.X.Type()}
+							} else if k, ok := d.X.(*ssa.Const); ok {
+								env.vars[obj.Name()] = TVal{T: x.constTerm(k), Sort: x.so.sortOf(k.Type()), Ty: k.Type()}
+							}
+						}
+					}
+				}
+			}
+			// loop-carried variables: phis of dominating blocks carry the source name
+			for _, b := range fr.fn.Blocks {
+				if !b.Dominates(blk) {
+					continue
+				}
+				for _, ins := range b.Instrs {
+					phi, ok := ins.(*ssa.Phi)
+					if !ok {
+						break
+					}
+					if sv, ok := fr.vals[phi]; ok && phi.Comment != "" {
+						if _, exists := env.vars[phi.Comment]; !exists {
+							env.vars[phi.Comment] = TVal{T: sv.t, Sort: x.so.sortOf(phi.Type()), Ty: phi.Type()}
+						}
+					}
+				}
+			}
+		}
+		for i, a := range args {
+			if i < len(cc.Args) {
+				env.vars[fmt.Sprintf("arg%d", i)] = TVal{T: a.t, Sort: x.so.sortOf(cc.Args[i].Type()), Ty: cc.Args[i].Type()}
+			}
+		}
+		tv, err := env.trTerm(c.Text)
+		if err != nil {
+			x.eng.specError(c, err)
+			continue
+		}
+		lbl := c.Label
+		if lbl == "" {
+			lbl = fmt.Sprintf("L%d", c.Line)
+		}
+		x.oblige("callsite", lbl, reach, tv.T, "call-site condition of "+c.Target+": "+c.Text, pos)
+	}
+}
+
+
+func callsiteName(cc *ssa.CallCommon) string {
+	if p, ok := cc.Value.(*ssa.Parameter); ok {
+		return "param:" + p.Name()
+	} else if cc.IsInvoke() {
+		return "(" + cc.Value.Type().String() + ")." + cc.Method.Name()
+	} else if f := cc.StaticCallee(); f != nil {
+		return f.String()
+	}
+	return ""
+}
+
+func callsiteMatch(target, name string) bool {
+	return name != "" && (target == name || (!strings.HasPrefix(target, "param:") && strings.Contains(name, target)))
 }
